@@ -369,7 +369,7 @@ func init() {
 	// texts that embed the constant text of a sentinel
 	for _, st := range []string{context.DeadlineExceeded.Error(), context.Canceled.Error(), os.ErrInvalid.Error(), os.ErrPermission.Error(),
 		os.ErrExist.Error(), os.ErrNotExist.Error(), os.ErrClosed.Error(), os.ErrDeadlineExceeded.Error()} {
-		osl.QuirkStrings = append(osl.QuirkStrings, st+" ({T})", st+": {T}", st+" {T}", st+"\n{T}", "{T}: "+st, "{T} "+st)
+		osl.QuirkStrings = append(osl.QuirkStrings, st+" ({T})", st+": {T}", st+"\n{T}", "{T}: "+st)
 	}
 	reg(osl)
 	uleaf("ut.TypeIsLeaf", true, func(m string) error { return &ut.TypeIsLeaf{Msg: m} })
